@@ -81,7 +81,7 @@ BuildTable(bl) == Table(BuildCases(bl), BytesRow) \o Table(TypedCases, BuildRow)
 
 \* -------------------------------------------------------------------- codec
 BA6 == {0, 1, 2, 127, 128, 255}
-Mags == {m \in SeqsUpTo(BA6, 3) : m = <<>> \/ m[1] # 0}
+Mags == {m \in SeqsUpTo(BA6, BLen) : m = <<>> \/ m[1] # 0}     \* in mode c14 BLen bounds the magnitude
 AmtCases == {NilAmt} \cup {Amt(neg, m) : neg \in BOOLEAN, m \in Mags}
 AmtRow(a) == [k |-> "amt", v |-> a, tb |-> EncAmount(a), size |-> SizeAmount(a)]
 
